@@ -842,6 +842,7 @@ def determinism():
              ("asan", "e1", ["--mode", "a"]), ("asan", "e1", ["--mode", "a", "--fault", "ta"]),
              ("asan", "e1", ["--mode", "a", "--fault", "stall"]), ("asan", "e1", ["--mode", "a", "--fault", "starve"]),
              ("asan", "e1", ["--mode", "b"]), ("tsan", "e1", ["--mode", "a"]), ("tsan", "e1", ["--mode", "b"]),
+             ("asan", "e1", ["--mode", "a", "--mix", "api"]), ("tsan", "e1", ["--mode", "a", "--mix", "api"]),
              ("plain", "e4", [])]
     bad = 0
     for variant, eng, args in cases:
